@@ -31,9 +31,12 @@ func VerifC17NilItems(capacity, k, nilmask, mode int) {
 	default:
 		consume = zzC17Rep(k, func(i int) string { return "(select (c x (setq acc (cons (list x) acc))))" })
 	}
-	src := "(let ((c (make-channel " + string(rune('0'+capacity)) + ")) (acc nil))" +
+	// the collecting variable lives in a scope of its own: gi:run evaluates the routine in the scope it
+	// was started from, and writing that scope from both sides is the recorded finding
+	// C17-run-shares-unlocked-scope, not this obligation's subject
+	src := "(let ((c (make-channel " + string(rune('0'+capacity)) + ")))" +
 		" (run (progn" + pushes + " (channel-close c)))" +
-		" " + consume + " (reverse acc))"
+		" (let ((acc nil)) " + consume + " (reverse acc)))"
 	out := zzC17Run(scope, src)
 	vrt.Assert(out.class != 5, "deadlock: the program hangs (a producer stays blocked)")
 	vrt.Assert(out.class == 0, "program signals")
